@@ -1,4 +1,5 @@
 import HawkModel.Rex
+import HawkModel.RexParse
 import HawkModel.Drv.Util
 /-! driver for the rex area (C06): ERE text -> `Re` (unverified parser for the generated subset), then the
 verified specification matcher `matchLL`.  Same line protocol as `harness/rex_h.c`:
@@ -10,6 +11,8 @@ verified specification matcher `matchLL`.  Same line protocol as `harness/rex_h.
                                                      0..maxlen (length ascending, lexicographic) x notbol 0,1
                                                      joined by ';'
     a pattern outside the parsed subset          ->  "PERR <reason>"
+    P <flags> <pattern>                          ->  the tre_ast_node_t tree `Hawk.Rex.Tre.parse` builds, in the text form
+                                                     of `Ast.dump`, or "ERR <reg_errcode>"
 -/
 namespace Hawk.Drv.Rex
 open Hawk.Rex
@@ -173,6 +176,34 @@ def parseRe (s : List Char) : P Re := do
   let (r, rest) ← parseAlt s 0
   if rest.isEmpty then return r else .error "trailing input"
 
+def hasMinimal : Hawk.Rex.Tre.Ast → Bool
+  | .leaf _ _ _ => false
+  | .cat a b _ _ => hasMinimal a || hasMinimal b
+  | .union a b _ _ => hasMinimal a || hasMinimal b
+  | .iter a _ _ mi _ _ => mi || hasMinimal a
+
+/-- which tree the M/A requests match with: the tree `Hawk.Rex.Tre.parse` (the transcription of `tre_parse`, tied to the
+real one by the P requests) builds, turned into an `Re` by `Tre.toRe` and matched case-sensitively (REG_ICASE is
+compiled into the tree) — whenever the old parser `parseRe` accepts the text too (it defines which constructs the
+specification covers: no back references, no minimal repetition, POSIX collating symbols) and the new path applies;
+otherwise the tree of `parseRe`.  -> (tree, icase flag to match with, "tre" | "old:<why>") -/
+def reOf (ic : Bool) (pat : List Char) (force : Bool := false) : P (Re × Bool × String) := do
+  if force then
+    -- flags bit 4: only the transcription of tre_parse (used to turn a parse-level difference into a failing subject)
+    match Hawk.Rex.Tre.parse ⟨ic, false, false⟩ pat with
+    | .ok p => match Hawk.Rex.Tre.toRe ic p.ast with
+      | some r => return (r, false, "tre")
+      | none => throw "back reference"
+    | .error e => throw e.name
+  let old ← parseRe pat
+  match Hawk.Rex.Tre.parse ⟨ic, false, false⟩ pat with
+  | .ok p =>
+    if hasMinimal p.ast then pure (old, ic, "old:minimal")
+    else match Hawk.Rex.Tre.toRe ic p.ast with
+      | some r => pure (r, false, "tre")
+      | none => pure (old, ic, "old:backref")
+  | .error e => pure (old, ic, "old:" ++ e.name)
+
 def showRes : Option (Nat × Nat) → String
   | some (a, b) => s!"{a},{b}"
   | none => "-"
@@ -197,20 +228,19 @@ def step (_ : Unit) (line : String) : Unit × String :=
       let (ic, r1) := splitAt ' ' rest
       let (nb, r2) := splitAt ' ' r1
       let (pat, subj) := splitAt '\t' r2
-      match parseRe pat with
+      match reOf (icaseOf ic) pat with
       | .error e => "PERR " ++ e
-      | .ok re =>
+      | .ok (re, icf, _) =>
         let ef := ((String.ofList nb).toNat?).getD 0
-        showRes (matchLL ⟨icaseOf ic, ef % 2 == 1, ef / 2 % 2 == 1⟩ re subj)
+        showRes (matchLL ⟨icf, ef % 2 == 1, ef / 2 % 2 == 1⟩ re subj)
     | 'A' :: ' ' :: rest =>
       let (ic, r1) := splitAt ' ' rest
       let (ml, r2) := splitAt ' ' r1
       let (alpha, pat) := splitAt ' ' r2
-      match parseRe pat, (String.ofList ml).toNat? with
+      match reOf (icaseOf ic) pat ((((String.ofList ic).toNat?).getD 0) / 16 % 2 == 1), (String.ofList ml).toNat? with
       | .error e, _ => "PERR " ++ e
       | _, none => "bad-op"
-      | .ok re, some maxlen =>
-        let icase := icaseOf ic
+      | .ok (re, icase, _), some maxlen =>
         let nobol := noBol re
         let subs := (List.range (maxlen + 1)).flatMap fun n => if n > 0 && alpha.isEmpty then [] else strs alpha n
         let alleflags := (((String.ofList ic).toNat?).getD 0) / 4 % 2 == 1
@@ -222,6 +252,19 @@ def step (_ : Unit) (line : String) : Unit × String :=
             [r0, r1, showRes (matchLL ⟨icase, false, true⟩ re s), showRes (matchLL ⟨icase, true, true⟩ re s)]
           else [r0, r1]
         joinWith ";" res
+    | 'T' :: ' ' :: rest =>
+      -- T <flags> <pattern>: which parser the M/A requests use for this pattern
+      let (fl, pat) := splitAt ' ' rest
+      match reOf (icaseOf fl) pat with
+      | .error e => "PERR " ++ e
+      | .ok (_, _, how) => how
+    | 'P' :: ' ' :: rest =>
+      -- P <flags> <pattern>: the transcription of tre_parse (RexParse.lean); flags bit 0 = REG_ICASE, bit 3 = REG_NOBOUND, bit 5 = model of the tree after patches/tre-parse-overread.diff
+      let (fl, pat) := splitAt ' ' rest
+      let n := ((String.ofList fl).toNat?).getD 0
+      match Hawk.Rex.Tre.parse ⟨n % 2 == 1, n / 8 % 2 == 1, n / 32 % 2 == 1⟩ pat with
+      | .error e => "ERR " ++ e.name
+      | .ok p => p.dump
     | _ => "bad-op"
   ((), out)
 
